@@ -20,6 +20,9 @@ ALLOWED = {"lru_time_cache::LruCache::<Key, Value>::with_expiry_duration",
 
 
 def check(env, rep, tier):
+    include(rep, env, tier, "c08", ("C08.7",), "C20.5",
+            "'state is kept for the configured duration': with a reply cached for the key every follow-up request is served from it - no second "
+            "lifetime (Max-Age of the reply, a freshness deadline) ends the cache before the configured expiry")
     include(rep, env, tier, "c09", ("C09.1",), "C20.4",
             "'a follow-up block after expiry is handled like the first of a new transfer (continues from an empty buffer)': the upload "
             "handler has no test of its own that compares a block's offset with what is buffered - only the bounded splice turns blocks down")
